@@ -50,7 +50,32 @@ func C06(c *Ctx) int {
 		}
 	}
 	c.ValidateSamples(o, byName, 6)
-	o.Extra = map[string]any{"corpus_items": len(items)}
+	// verdict clause on concrete cases (not solver-decided)
+	rej := corpus.RejectedLayouts()
+	for i := range rej {
+		rej[i].HarnessGo = "package PKG\n"
+	}
+	ritems, err := c.Generate(nil, nil, rej...)
+	verdicts := map[string]string{}
+	if err == nil {
+		for _, it := range ritems {
+			accepted := it.ExitOK && it.Files
+			want := it.Name == "V-ok"
+			verdicts[it.Name] = fmt.Sprintf("accepted=%v (expected %v): %s", accepted, want, it.Custom.Note)
+			diag := len(it.Stderr) > 0
+			switch {
+			case it.Crashed:
+				o.Violations = append(o.Violations, fmt.Sprintf("VIOLATION property=C06 replay=%s", c.SaveReplay("crash-"+it.Name, map[string]any{"item": it.Name, "what": "lox crashed", "stderr": it.Stderr})))
+			case accepted != want:
+				o.Violations = append(o.Violations, fmt.Sprintf("VIOLATION property=C06 replay=%s", c.SaveReplay("verdict-"+it.Name,
+					map[string]any{"item": it.Name, "what": "lox verdict differs from the documented one: " + it.Custom.Note, "accepted": accepted, "stderr": it.Stderr,
+						"lox": it.Custom.Lox, "parser_go": it.Custom.Render(it.Custom.ParserGo, it.Pkg)})))
+			case !accepted && !diag:
+				o.Violations = append(o.Violations, fmt.Sprintf("VIOLATION property=C06 replay=%s", c.SaveReplay("nodiag-"+it.Name, map[string]any{"item": it.Name, "what": "rejected without a diagnostic"})))
+			}
+		}
+	}
+	o.Extra = map[string]any{"corpus_items": len(items), "verdict_cases_concrete_not_solver_decided": verdicts}
 	o.Assumptions = []string{"type layouts are an enumerated corpus of six (identical, interface-typed, named slices, generic instantiations, imported types, aliases), all accepted by Go assignability",
 		"type assertions in the generated _cast are evaluated by the engine with go/types identity / implements, as Go does"}
 	o.Outside = []string{"the verdict clause 'lox succeeds exactly when ...' for missing, ambiguous or orphaned methods (behind go list / go/types: not encodable)", "layouts outside the corpus"}
